@@ -234,6 +234,10 @@ class tracing:
 # --------------------------------------------------------------------------------------
 # M-infer: typing.infer_type returns None or a _Literal subclass; for a literal its class
 # --------------------------------------------------------------------------------------
+INFER_SCHEMA = None     # set by C18: every result, whoever asks and with whatever keywords, is
+                        # compared with the reference type of the node (when that is pinned)
+
+
 def _infer_ok(node, result):
     COUNTS["M-infer"] += 1
     if result is None:
@@ -242,6 +246,16 @@ def _infer_ok(node, result):
         return False
     if isinstance(node, ast._Literal):
         return result is type(node)
+    if INFER_SCHEMA is not None:
+        from ..ref.decode import decode
+        from ..ref.types import static_type, class_name
+        try:
+            want = class_name(static_type(decode(node), INFER_SCHEMA))
+        except Exception:
+            want = None
+        COUNTS["M-infer-vs-reference"] += 1
+        if want is not None and result.__name__ != want:
+            return False
     return True
 
 
